@@ -41,6 +41,22 @@ def mutations(plan, rng):
                 out.append(("missing_item", (bi, name), mut(drop_item=name)))
             out.append(("extra_item", bi, mut(add_item="const EXTRA: u8 = 1;")))
             out.append(("extra_item", bi, mut(add_item="fn extra() {}")))
+            # an extra item that shares its NAME with a trait item of another KIND (seeded change C14j: one table of declared names for
+            # all kinds let `const name` pass as the trait's `fn name`); with a defaulted and with a required namesake
+            for k, name, d in plan.items:
+                if k in ("cfgdup", "cfgoff"):
+                    continue
+                if k == "const":
+                    alts = [f"fn {name}() {{}}", f"type {name} = u8;"]
+                elif k == "type":
+                    alts = [f"const {name}: u8 = 1;", f"fn {name}() {{}}"]
+                else:
+                    alts = [f"const {name}: u8 = 1;", f"type {name} = u8;"]
+                taken = {(k2 if k2 in ("const", "type") else "fn") for k2, n2, _ in plan.items if n2 == name}
+                for a in alts:
+                    kind = a.split()[0]
+                    if kind not in taken:
+                        out.append(("extra_item", (bi, "namesake", name, kind), mut(add_item=a)))
             if plan.trait_unsafe:
                 out.append(("safe_impl_of_unsafe_trait", bi, mut(unsafe=False)))
             else:
@@ -182,7 +198,9 @@ def run(tier, seed, replay=None):
                 ms.sort(key=lambda x: -header_depth(b, x[1]))
             # directed: blocks of the wrong kind without dispatch bounds come first
             nb_ = [x for x in ms if isinstance(x[1], tuple) and x[1][1] == "no-bounds"]
-            ms = nb_[:2] + [x for x in ms if x not in nb_][:8]
+            ns_ = [x for x in ms if isinstance(x[1], tuple) and len(x[1]) > 1 and x[1][1] == "namesake"]
+            ns_.sort(key=lambda x: not any(n_ == x[1][2] and d_ for _, n_, d_ in b.items))   # defaulted namesakes first
+            ms = nb_[:2] + ns_[:3] + [x for x in ms if x not in nb_ and x not in ns_][:8]
         cases += ms
     progs = [(f"c{i}", program(p, d is not None and p.mode == "trait")) for i, (d, site, p) in enumerate(cases)]
     res = C.run_programs(so, progs, mode="check")
